@@ -208,7 +208,20 @@ Definition run_sem_rv : string -> string := run_cases sem_rv_case.
 
 (* ---------- C14: well-formedness of the implementation's output ---------- *)
 From SCC Require Import Sem.RVWf Sem.LabelGuard.
+From SCC Require Sem.WfGuard Sem.WfGuard64.
 Open Scope string_scope.
+(* is the program inside ALL hypotheses of the theorem Props/C14.v C14_rv_compile_asm_wf (Sem/WfGuard64.v)?  Tag
+   `thm` / `out:<first hypothesis that fails>`; `small-thm` when inside C14_rv_compile_code_small.  A program inside the
+   hypotheses whose REAL output fails asm_wf (resp. the size bound) contradicts the theorem: the model and the code
+   disagree - VIOL class=asm-wf-theorem-contradicted. *)
+Definition thm_tag_rv (pp : option prog) : string :=
+  match pp with
+  | Some pp => (if WfGuard64.wf_guard_rv pp then " thm" else " out:" ++ WfGuard64.guards_failed (WfGuard64.wf_guards_rv pp))
+               ++ (if LinCheck.lin_check_prog pp && WfGuard.size_guard pp then " small-thm" else "")
+  | None => ""
+  end.
+Definition code_small_rv (cs : list rcode) : bool :=
+  Z.ltb (CODE_BASE + fold_right (fun c a => isize c + a)%Z 0%Z cs + 32)%Z 4611686018427387904%Z.
 Definition guard_tag (p : sexp) : string :=
   match g_prog p with
   | Some pp => (if labels_guard pp then " guard" else if name_digits pp then " name-digits" else " noguard")
@@ -225,14 +238,19 @@ Definition wf_rv_case (i r : sexp) : verdict :=
           match bad_label (defined_labels cs ++ flat_map referenced cs) with
           | Some l => VViol ("class=asm-ill-formed-rv label is not an identifier: " ++ l)
           | None =>
+          let pp := g_prog p in
+          let inside := match pp with Some q => WfGuard64.wf_guard_rv q | None => false end in
+          let inside_small := match pp with Some q => LinCheck.lin_check_prog q && WfGuard.size_guard q | None => false end in
           match asm_wf cs with
           | Some why =>
-              match first_dup ("cleanup" :: defined_labels cs), g_prog p with
+              if inside then VViol ("class=asm-wf-theorem-contradicted " ++ why) else
+              match first_dup ("cleanup" :: defined_labels cs), pp with
               | Some l, Some pp => if name_digits pp then VViol ("class=label-collision-name-digits " ++ why)
                                    else VViol ("class=asm-ill-formed-rv " ++ why)
               | _, _ => VViol ("class=asm-ill-formed-rv " ++ why)
               end
           | None =>
+              if inside_small && negb (code_small_rv cs) then VViol "class=asm-wf-theorem-contradicted code not small" else
               (* a conditional branch beyond +-4 KiB / JAL beyond +-1 MiB even with the smallest encodings:
                  reported as a tag pending a ruling (GNU as relaxes such branches, other assemblers reject them);
                  to count it as a violation answer VViol ("class=rv-branch-out-of-range ..." ) here *)
@@ -244,7 +262,7 @@ Definition wf_rv_case (i r : sexp) : verdict :=
                   VOk ("nt labels" ++ n_to_string (N.log2 (N.of_nat nlab + 1)) ++ tag far "far-branch"
                        ++ tag (has (fun c => match c with LA _ _ => true | _ => false end) cs) "table"
                        ++ tag (has (fun c => match c with SW _ _ _ => true | _ => false end) cs) "mem"
-                       ++ " kb" ++ z_to_string (code_bytes cs / 1024) ++ guard_tag p)
+                       ++ " kb" ++ z_to_string (code_bytes cs / 1024) ++ guard_tag p ++ thm_tag_rv pp)
               end
           end
           end
